@@ -7,8 +7,7 @@ C07 / C05 across a resharing, continued (model: Drand/Net/Reshare.lean; first pa
      `c07_told_is_punctual`: nodes that were told keep it by themselves; `c07_quiet_counterexample`: without it — one tick of a
      leaver that was never stopped — `Quiet` is false and the new group, complete, up and connected, halts for good (the
      cache is keyed by index: the leaver's old-share partial sits on an index of the new group).
-  2. levelling and the bound across the transition: `c07_level`, `c07_fair_round`.
-  3. `c07_chain_continues`.
+  2./3. levelling, the bound across the transition and `c07_chain_continues`: DrandProofs/C07Chain.lean.
 -/
 import DrandProofs.C07QuietInv
 
